@@ -1,6 +1,9 @@
 import DaeVerif.C01.Proofs
 import DaeVerif.C01.Position
 import DaeVerif.C01.Encoding
+import DaeVerif.C01.OutboundProofs
+import DaeVerif.C01.LpmIndexProofs
+import DaeVerif.C01.Text
 /-!
 # C01 — property theorems (first-match routing semantics)
 -/
@@ -219,5 +222,212 @@ theorem compiled_first_final_decides (p : Pkt) (hp : p.WF) (r : SRule) (rs : Lis
     matchM (compileProgram (r :: rs) fb) p = some o := by
   rw [match_is_first_match _ fb p hp hr, first_final_decides p r rs fb o false hh ho]
   simp
+
+/-! ## LPM slots: address and MAC match sets read through `lpmIndex` -/
+
+/-- **Headline with every indirection of the code in place.** The builder assigns each `ip` / `sip` /
+`mac` match set an LPM slot (address sets canonicalised and shared through the hash map `lpmDedup`, a
+hash hit verified by comparison; MAC sets never shared) and `Match` queries the slot by index, domain
+sets by position.  Whatever the hash function — collisions included — the decision is the first-match
+specification. -/
+theorem match_by_lpm_index_is_first_match (hash : List Prefix → Nat) (rules : List SRule) (fb : Out)
+    (p : C01.Pkt) (hp : p.WF) (hr : ∀ r ∈ rules, r.WF) :
+    matchL hash rules fb p = some (firstMatchS p rules fb false) := by
+  rw [matchL_eq_matchM]; exact match_is_first_match rules fb p hp hr
+
+-- non-vacuity, with the WORST hash function (everything collides): two different address sets and a
+-- repeated one (under the other direction); the repeated set shares slot 0, the colliding one gets its own
+example :
+    let rules : List SRule :=
+      [⟨⟨false, .ip true ⟨⟨⟨true, mapped4 0x0a000000, 8⟩, []⟩, []⟩⟩, [], .final ⟨2, 0, false⟩⟩,
+       ⟨⟨false, .ip false ⟨⟨⟨true, mapped4 0x0a000000, 8⟩, []⟩, []⟩⟩, [], .final ⟨3, 0, false⟩⟩,
+       ⟨⟨false, .ip false ⟨⟨⟨true, mapped4 0x0b000000, 8⟩, []⟩, []⟩⟩, [], .final ⟨4, 0, false⟩⟩]
+    (buildL (fun _ => 0) rules ⟨0, 0, false⟩).idxs = [some 0, some 0, some 1, none] ∧
+    matchL (fun _ => 0) rules ⟨0, 0, false⟩
+      ⟨mapped4 0x0b010203, mapped4 0x01010101, 1, 2, 1, 1, List.replicate 16 0, 0, 0, []⟩ = some ⟨4, 0, false⟩ := by
+  decide
+
+/-- The "bad lpm index" error branch of `Match` is unreachable on a built program. -/
+theorem lpm_index_in_range (hash : List Prefix → Nat) (rules : List SRule) (fb : Out) (j k : Nat)
+    (hj : j < (compileProgram rules fb).length)
+    (hk : (buildL hash rules fb).idxs.getD j none = some k) :
+    k < (buildL hash rules fb).tries.length := C01.lpm_index_in_range hash rules fb j k hj hk
+
+/-- Two match sets read the same LPM slot only when they list the same (canonical) set. -/
+theorem shared_slot_same_set (hash : List Prefix → Nat) (rules : List SRule) (fb : Out) (i j k : Nat)
+    (hi : i < (compileProgram rules fb).length) (hj : j < (compileProgram rules fb).length)
+    (ps qs : List Prefix)
+    (hci : slotOf (compileProgram rules fb)[i].cond = some ps)
+    (hcj : slotOf (compileProgram rules fb)[j].cond = some qs)
+    (hki : (buildL hash rules fb).idxs.getD i none = some k)
+    (hkj : (buildL hash rules fb).idxs.getD j none = some k) : ps = qs :=
+  C01.shared_slot_same_set hash rules fb i j k hi hj ps qs hci hcj hki hkj
+
+/-! ## The outbound as written: `must_` prefix, `(must)`, `mark:` -/
+
+/-- `patchMustOutbound` + `ParseOutbound` on a rule's outbound compute the documented meaning: the
+name with ONE `must_` prefix removed (as a prefix; `must_rules` is reserved), must = prefix or the word
+`must`, mark = the last `mark:` written (a 32-bit number in Go's base-0 syntax), and an error exactly
+when some parameter is neither. -/
+theorem rule_outbound_meaning (f : OFunc) : ruleOutbound f = ruleMeaning f := by
+  by_cases hp : sMustPrefix.isPrefixOf f.name = true
+  · by_cases hr : f.name = sMustRules
+    · have e1 : patchRuleOutbound f = f := by unfold patchRuleOutbound; rw [if_pos hp, if_pos hr]
+      have e2 : ruleMeaning f = plainMeaning f.name f.params false := by
+        unfold ruleMeaning; rw [if_neg]; exact fun h => h.2 hr
+      unfold ruleOutbound; rw [e1, e2]; unfold parseOutbound; exact paramLoop_plain _ _
+    · have e1 : patchRuleOutbound f = ⟨f.name.drop 5, f.params ++ [([], sMust)]⟩ := by
+        unfold patchRuleOutbound; rw [if_pos hp, if_neg hr]
+      have e2 : ruleMeaning f = plainMeaning (f.name.drop 5) f.params true := by
+        unfold ruleMeaning; rw [if_pos]; exact ⟨hp, hr⟩
+      unfold ruleOutbound; rw [e1, e2]; unfold parseOutbound; exact paramLoop_append_must _ _
+  · have e1 : patchRuleOutbound f = f := by unfold patchRuleOutbound; rw [if_neg hp]
+    have e2 : ruleMeaning f = plainMeaning f.name f.params false := by
+      unfold ruleMeaning; rw [if_neg]; exact fun h => hp h.1
+    unfold ruleOutbound; rw [e1, e2]; unfold parseOutbound; exact paramLoop_plain _ _
+
+/-- … and on the fallback (where `must_rules` has no special reading). -/
+theorem fallback_outbound_meaning (f : OFunc) : fallbackOutbound f = fallbackMeaning f := by
+  by_cases hp : sMustPrefix.isPrefixOf f.name = true
+  · have e1 : patchFallbackOutbound f = ⟨f.name.drop 5, f.params ++ [([], sMust)]⟩ := by
+      unfold patchFallbackOutbound; rw [if_pos hp]
+    have e2 : fallbackMeaning f = plainMeaning (f.name.drop 5) f.params true := by
+      unfold fallbackMeaning; rw [if_pos hp]
+    unfold fallbackOutbound; rw [e1, e2]; unfold parseOutbound; exact paramLoop_append_must _ _
+  · have e1 : patchFallbackOutbound f = f := by unfold patchFallbackOutbound; rw [if_neg hp]
+    have e2 : fallbackMeaning f = plainMeaning f.name f.params false := by
+      unfold fallbackMeaning; rw [if_neg hp]
+    unfold fallbackOutbound; rw [e1, e2]; unfold parseOutbound; exact paramLoop_plain _ _
+
+/-- `must_<n>(ps)` is `<n>(ps)` with must set — whatever `<n>` begins with (the prefix is removed once,
+as a prefix, not as a set of characters). -/
+theorem must_prefix_sets_must (n : List Nat) (ps : List (List Nat × List Nat))
+    (hn : sMustPrefix ++ n ≠ sMustRules) :
+    ruleOutbound ⟨sMustPrefix ++ n, ps⟩ = plainMeaning n ps true := by
+  rw [rule_outbound_meaning]
+  unfold ruleMeaning
+  have h1 : sMustPrefix.isPrefixOf (sMustPrefix ++ n) = true := by
+    rw [List.isPrefixOf_iff_prefix]; exact List.prefix_append _ _
+  have h2 : (sMustPrefix ++ n).drop 5 = n := by
+    have : sMustPrefix.length = 5 := rfl
+    rw [← this, List.drop_left]
+  simp only [h1, hn, ne_eq, not_false_eq_true, and_self, if_true, h2]
+
+-- non-vacuity: `must_us_proxy(mark: 0x10)` is `us_proxy` with must and mark 16 — the name keeps its
+-- own leading `u`, `s`, `_`
+example : ruleOutbound ⟨sMustPrefix ++ [117, 115, 95, 112], [(sMark, [48, 120, 49, 48])]⟩ =
+    some ⟨[117, 115, 95, 112], 16, true⟩ := by decide
+
+/-- `must_rules` stays `must_rules` (it is not the group `rules` with must). -/
+theorem must_rules_reserved (ps : List (List Nat × List Nat)) :
+    ruleOutbound ⟨sMustRules, ps⟩ = plainMeaning sMustRules ps false := by
+  rw [rule_outbound_meaning]
+  unfold ruleMeaning
+  have : ¬ (sMustPrefix.isPrefixOf sMustRules = true ∧ sMustRules ≠ sMustRules) := fun h => h.2 rfl
+  simp only [this, if_false]
+
+/-- the last mark written wins; `must` anywhere among the parameters sets must -/
+theorem last_mark_wins (name : List Nat) (ps : List (List Nat × List Nat)) (v : List Nat) (m : Nat)
+    (hps : ps.all paramOk = true) (hv : parseUint0 32 v = some m) :
+    plainMeaning name (ps ++ [(sMark, v)]) false = some ⟨name, m, ps.any isMustParam⟩ := by
+  have hok : paramOk (sMark, v) = true := by simp [paramOk, hv]
+  have hnm : isMustParam (sMark, v) = false := by simp [isMustParam, sMark]
+  have hmk : marksOf [(sMark, v)] = [m] := by simp [marksOf, hv]
+  unfold plainMeaning
+  simp only [List.all_append, hps, List.all_cons, hok, List.all_nil, Bool.and_self, if_true,
+    marksOf_append, hmk, List.any_append, List.any_cons, hnm, List.any_nil, Bool.or_false, Bool.false_or]
+  simp
+
+example : (([] : List (List Nat × List Nat)).all paramOk = true) ∧ parseUint0 32 [48, 55, 55] = some 63 := by decide
+
+/-! ## The group table and the reserved outbound values -/
+
+/-- Every id `NewControlPlane` assigns (it refuses more than 0xFB outbounds) is below the reserved
+values, so a routing section resolved through that table satisfies the hypothesis `OutsOk` of
+`match_bytes_is_first_match`: the one-byte tails can never be misread. -/
+theorem resolved_program_outs_ok (names : List (List Nat)) (n2i : List Nat → Option Nat)
+    (hn : assignIds names = some n2i) (ts : List TRule) (tfb : OFunc) (rules : List SRule) (fb : Out)
+    (hr : resolveRules n2i ts = some rules) (hf : resolveFallback n2i tfb = some fb) : OutsOk rules fb := by
+  have hrange := assignIds_range names n2i hn
+  refine ⟨Nat.le_of_lt (by
+    have := resolveFallback_range n2i hrange tfb fb hf
+    unfold obUserDefinedMax; omega), ?_⟩
+  intro r hr' o ho
+  obtain ⟨t, _, ht⟩ := resolveRules_mem n2i ts rules hr r hr'
+  unfold resolveRule at ht
+  cases hres : resolveRuleOut n2i t.out with
+  | none => simp [hres] at ht
+  | some ro =>
+    simp only [hres, Option.map_some, Option.some.injEq] at ht
+    subst ht
+    simp only at ho
+    subst ho
+    have := resolveRuleOut_range n2i hrange t.out o hres
+    unfold obUserDefinedMax; omega
+
+/-- **End to end from the text of the outbounds and `Route`'s arguments.** For a routing section whose
+outbounds are resolved as the code resolves them (`patchMustOutbound`, `ParseOutbound`, the group table
+of `NewControlPlane`), the byte-level `Match` loop on the marshalled packet decides as the first-match
+specification — no side condition on outbound ids is left. -/
+theorem route_text_is_first_match (names : List (List Nat)) (n2i : List Nat → Option Nat)
+    (hn : assignIds names = some n2i) (ts : List TRule) (tfb : OFunc) (rules : List SRule) (fb : Out)
+    (hrs : resolveRules n2i ts = some rules) (hf : resolveFallback n2i tfb = some fb)
+    (a : RouteArgs)
+    (hs4 : a.srcIs4 = true → a.src < 2 ^ 32) (hs6 : a.srcIs4 = false → a.src < 2 ^ 128)
+    (hd4 : a.dstIs4 = true → a.dst < 2 ^ 32) (hd6 : a.dstIs4 = false → a.dst < 2 ^ 128)
+    (hm : a.mac6 < 2 ^ 48) (hl : a.l4 = 1 ∨ a.l4 = 2) (hr : ∀ r ∈ rules, r.WF) :
+    matchBytes rules fb (pktOfRoute a) = some (firstMatchS (pktOfRoute a) rules fb false) :=
+  route_is_first_match rules fb a hs4 hs6 hd4 hd6 hm hl hr
+    (resolved_program_outs_ok names n2i hn ts tfb rules fb hrs hf)
+
+-- non-vacuity: a three-name table, the rule outbound `must_g(mark: 7)`, fallback `direct`
+example :
+    let names : List (List Nat) := [[100], [98], [103]]
+    (assignIds names).isSome = true ∧
+    (match resolveRuleOut (indexOf names) ⟨sMustPrefix ++ [103], [(sMark, [55])]⟩ with
+      | some (.final o) => o == ⟨2, 7, true⟩
+      | _ => false) = true ∧
+    resolveFallback (indexOf names) ⟨[100], []⟩ = some ⟨0, 0, false⟩ := by
+  decide
+
+/-- the group table refuses more than 0xFB outbounds … -/
+theorem group_table_refuses_too_many (names : List (List Nat)) (h : names.length > 0xFB) :
+    assignIds names = none := by
+  unfold assignIds; rw [if_pos h]
+
+/-- … and accepts every table of at most 0xFB distinct names, ids being positions -/
+theorem group_table_accepts (names : List (List Nat)) (h : names.length ≤ 0xFB) (hd : hasDup names = false) :
+    assignIds names = some (indexOf names) := by
+  unfold assignIds; rw [if_neg (by omega), hd]; rfl
+
+example : hasDup [[100], [98], [103]] = false ∧ indexOf [[100], [98], [103]] [103] = some 2 := by decide
+
+/-! ## Values as written -/
+
+/-- ports: `A` is `A-A`; decimal only, leading zeros ignored (no octal reading); both ends within 16 bits -/
+theorem port_text_single (s : List Nat) (h : (splitFirst 45 s).2 = none) :
+    parsePortRange s = (portField s).map fun lo => (lo, lo) := parsePortRange_single s h
+
+theorem port_text_bounds (s : List Nat) (lo hi : Nat) (h : parsePortRange s = some (lo, hi)) :
+    lo ≤ 0xffff ∧ hi ≤ 0xffff := parsePortRange_bounds s lo hi h
+
+theorem port_text_leading_zero (s : List Nat) (hs : s ≠ []) : decDigits (48 :: s) = decDigits s :=
+  decDigits_leading_zero s hs
+
+/-- the notation at its corners: `080` is eighty, `0-65535` everything, `65536`, `80-` and `0x50` are
+refused; DSCP is read with Go's base-0 syntax, so `010` is eight (octal), `0x2e` forty-six, `256` refused;
+MACs are six two-digit hex fields in either letter case -/
+theorem value_text_examples :
+    parsePortRange [48, 56, 48] = some (80, 80) ∧
+    parsePortRange [48, 45, 54, 53, 53, 51, 53] = some (0, 65535) ∧
+    parsePortRange [54, 53, 53, 51, 54] = none ∧
+    parsePortRange [56, 48, 45] = none ∧
+    parsePortRange [48, 120, 53, 48] = none ∧
+    parseDscp [48, 49, 48] = some 8 ∧
+    parseDscp [48, 120, 50, 101] = some 46 ∧
+    parseDscp [50, 53, 54] = none ∧
+    parseMac [48, 50, 58, 52, 50, 58, 65, 99, 58, 49, 49, 58, 48, 48, 58, 48, 50] = some 0x0242ac110002 ∧
+    parseMac [50, 58, 52, 50, 58, 65, 99, 58, 49, 49, 58, 48, 48, 58, 48, 50] = none := by
+  decide
 
 end DaeVerif.C01.Props
